@@ -189,6 +189,7 @@ func runOne(t *testing.T, prop string, seed uint64, w Workload, rng *simrt.Rand,
 		}()
 		synctest.Test(t, func(t *testing.T) {
 			cfg := w.Sim().config(replay, lenient)
+			cfg.AuxSeed = seed
 			s := simrt.New(cfg, rng)
 			defer s.Close()
 			x := &Exec{S: s, Rng: rng, Out: out}
